@@ -342,6 +342,26 @@ func genWritePath(t *rapid.T, root *tnode, forUnset bool) []tfSeg {
 
 func tfTreeRoot(t *rapid.T) V {
 	root := tfTreeRoot0(t)
+	if oneIn(t, 6, "twinlist") {
+		// a scalar list together with a sibling that starts with the same content (the construction
+		// routes may then derive the sibling from it with Concat)
+		n := drawInt(t, 1, 7, "twinlen")
+		base := V{K: KList}
+		for i := 0; i < n; i++ {
+			base.L = append(base.L, VInt(drawInt(t, 0, 9, "tv")))
+		}
+		twin := base.Clone()
+		for i, m := 0, drawInt(t, 0, 2, "twinextra"); i < m; i++ {
+			twin.L = append(twin.L, VStr("extra"))
+		}
+		if root.K == KList {
+			root.L = append(root.L, base, twin)
+		} else if _, dup := root.Field("base"); !dup {
+			if _, dup2 := root.Field("twin"); !dup2 {
+				root.O = append(root.O, Pair{"base", base}, Pair{"twin", twin})
+			}
+		}
+	}
 	if oneIn(t, 15, "deepchain") {
 		cfg := tfTreeCfg()
 		cfg.LongLists = false
